@@ -6,6 +6,8 @@ Bounded: the whole pipeline (header parser, single and multipart producers)
 rendered on real files and compared with an independent reference.
 """
 import itertools
+
+import z3
 import os
 import shutil
 import tempfile
@@ -150,26 +152,45 @@ class DoSingleRangeRequest(Contract):
     canaries = [("if offset == size == 0:", "if offset == 0:", "status_416_iff_unsatisfiable")]
 
 
+CRF = z3.Function("c25_content_range_header", z3.IntSort(), z3.IntSort(), core.IntSeq)
+
+
+def content_range_of(off, size):
+    # ASCII: a consequence of ContentRange's postcondition (letters, digits, '-', '/', blank)
+    return core.SSeq(CRF(core.num_term(off), core.num_term(size)), "bytes", True)
+
+
 class DoMultipleRangeRequest(Contract):
-    """File._doMultipleRangeRequest for a list of 1..3 parsed ranges with symbolic bounds: one part per satisfiable range,
+    """File._doMultipleRangeRequest for one parsed range of any form or two closed ranges, all bounds symbolic (thorough tier only): one part per satisfiable range,
     in header order, with the RFC 9110 offset / size and its own Content-Range; Content-Length is the exact number of
     bytes the parts and separators make up; 416 exactly when no range is satisfiable (seeded change C25-2)."""
     prop = "C25"
     module = M
     function = "File._doMultipleRangeRequest"
-    calls = dict(CALLS, **{"time.time": lambda I: 1.0, "time": lambda I: 1.0, "os.getpid": lambda I: 7, "getpid": lambda I: 7})
+    # _contentRange has its own contract (ContentRange): here it is the callee's summary, an uninterpreted function of
+    # (offset, size) -- which also keeps the decimal-digit strings out of this function's path conditions
+    calls = dict(CALLS, **{"time.time": lambda I: 1.0, "time": lambda I: 1.0, "os.getpid": lambda I: 7, "getpid": lambda I: 7,
+                           "File._contentRange": lambda I, f, off, size: content_range_of(off, size)})
     differential = False
-    inputs = dict(n=Int(lo=0, small=range(0, 5)), k=OneOf(1, 2, 3),
-                  s0=Opt(Int(small=[0, 2])), e0=Opt(Int(small=[1, 6])), s1=Opt(Int(small=[0, 9])), e1=Opt(Int(small=[3])),
-                  s2=Opt(Int(small=[1])), e2=Opt(Int(small=[1])))
+    replay_decides = False
+    tiers = ("thorough",)   # dozens of paths with a forked sequence-solver query at every branch: minutes
+    budget_thorough = 3000
+    canary_budget = 1500
+    # one range of any form (a-b, a-, -b), or two closed ranges a-b, c-d: all bounds symbolic
+    inputs = dict(n=Int(lo=0, small=range(0, 5)), shape=OneOf("one", "two-closed"),
+                  s0=Opt(Int(small=[0, 2])), e0=Opt(Int(small=[1, 6])), s1=Int(lo=0, small=[0, 9]), e1=Int(lo=0, small=[3, 9]))
 
     def _ranges(self, i):
-        return [(i.s0, i.e0), (i.s1, i.e1), (i.s2, i.e2)][: i.k]
+        if i.shape == "one":
+            return [(i.s0, i.e0)]
+        return [(i.s0, i.e0), (i.s1, i.e1)]
 
     def requires(self, i):
         class R:
             pass
         ok = i.n >= 0
+        if i.shape == "two-closed" and (i.s0 is None or i.e0 is None):
+            return False
         for (a, b) in self._ranges(i):
             r = R()
             r.n, r.start, r.end = i.n, a, b
@@ -210,7 +231,7 @@ class DoMultipleRangeRequest(Contract):
         for (sep, off, size), (a, b) in zip(info, want):
             fp = first_pos(n, a, b)
             lp = last_pos(n, a, b)
-            cr = b"Content-range: bytes " + dec(fp) + b"-" + dec(lp) + b"/" + dec(n) + b"\r\n\r\n"
+            cr = b"Content-range: " + content_range_of(fp, lp - fp + 1) + b"\r\n\r\n"
             out = band(out, off == fp, size == lp - fp + 1, size > 0, off + size <= n, core.seq_endswith(sep, cr))
             total = total + L(sep) + size
         return band(out, veq(hdrs.get(b"content-length"), dec(total)))
@@ -599,8 +620,7 @@ class RenderRanges(Bounded):
         return None
 
 
-CONTRACTS = [RangeToOffsetAndSize, ContentRange, DoSingleRangeRequest, SingleRangeResume, NoRangeResume]
-DRAFT = [DoMultipleRangeRequest]
+CONTRACTS = [RangeToOffsetAndSize, ContentRange, DoSingleRangeRequest, SingleRangeResume, NoRangeResume, DoMultipleRangeRequest]
 BOUNDED = [RenderRanges]
 NOTES = dict(
     explanation="Range arithmetic proved against RFC 9110 14.1.2 for all sizes/starts/ends; header parser, "
@@ -617,7 +637,11 @@ MANIFEST = dict(
          "(symbolic file content, offset, size, progress and buffer size) to hand the request exactly the next "
          "min(bufferSize, rest) bytes of the range, to have accounted for them before request.write is called (which "
          "may pull again), never to go beyond the range and to finish the response exactly when the range is complete. "
-         "The parser, the multipart path and MultipleRangeStaticProducer are checked by "
+         "File._doMultipleRangeRequest is proved in the thorough tier (one or two parsed ranges with symbolic bounds, "
+         "_contentRange through its own contract) to yield one part per satisfiable range, in header order, with the RFC "
+         "offset and size and its own Content-Range, a Content-Length equal to the bytes the parts and separators make "
+         "up, and 416 exactly when no range is satisfiable.  "
+         "The parser, longer range lists and MultipleRangeStaticProducer are checked by "
          "the bounded tier only: every Range header of a small grammar x file sizes 0..4 x GET/HEAD (GET also with a "
          "consumer that pulls from inside write()) rendered on "
          "real files and compared with an independent RFC reference (labelled bounded, not proved).",
